@@ -1,9 +1,9 @@
 SPECIFICATION Spec
 CONSTANTS
   Procs = {p1, p2, p3}
-  NCalls = 2
+  NCalls = 1
   FIXED = TRUE
-  GRAPH = "mutual"
+  GRAPH = "excl"
   Refs <- MCRefs
   Target <- MCTarget
   Children <- MCChildren
